@@ -120,7 +120,18 @@ def _chunked(r, body, strict=True, eol=b'\r\n'):
         k = r.choice([1, 2, 3, 5, 16, 17, n - pos, r.randrange(1, n - pos + 1)])
         k = max(1, min(k, n - pos))
         ext = r.choice([b'', b'', b'', b';x', b';x=y', b'; a="b;c"', b';' if not strict else b';q=1'])
-        out += _chunk_size_text(r, k, strict).encode() + ext + eol + body[pos:pos + k] + eol
+        term = eol
+        declared = k
+        if not strict and r.random() < .4:
+            # data/terminator boundary: odd terminators, declared size off by one
+            t = r.randrange(3)
+            if t == 0:
+                term = r.choice([b'\r\r\n', b'X\r\n', b'X\r\n', b' \n', b'\r', b'', b'\n\n', b'ab\n', b'\t\r\n', b'abc\r\n'])
+            elif t == 1:
+                declared = k + 1
+            elif k > 1:
+                declared = k - 1
+        out += _chunk_size_text(r, declared, strict).encode() + ext + eol + body[pos:pos + k] + term
         pos += k
     last = r.choice(['0', '0', '00', '000']) if strict else r.choice(['0', '0x0', ' 0', '-0', '+0'])
     out += last.encode() + r.choice([b'', b'', b';last']) + eol
@@ -701,12 +712,42 @@ def build(ctx, r, n_msgs, n_segs, n_trunc):
             continue
         for cuts in segmentations(r, m['bytes'], n_segs):
             pairs.append((mi, cuts))
+        if ctx.thorough and len(m['bytes']) <= 48 and mi % 3 == 0:
+            for i in range(1, len(m['bytes'])):          # every single cut position of a short message
+                pairs.append((mi, [i]))
     return msgs, pairs
+
+
+def build_lockstep(r, n):
+    """sequences of 2-4 well-formed messages for one persistent connection; response k+1 becomes readable only
+    after request k+1 was written (reactive transport of harness/fakes/conn.py)"""
+    seqs = []
+    force = {'http10': False, 'keep_alive': True, 'ignore_length': False}
+    while len(seqs) < n:
+        seq = []
+        for _ in range(r.choice([2, 2, 3, 4])):
+            for attempt in range(40):
+                m = gen_message(r, force=force)
+                if m['wf'] and m['expect']['delim'] != 'close' and 'surplus' not in m['tags']:
+                    break
+            else:
+                continue
+            seq.append((m, r.choice(segmentations(r, m['bytes'], 5))))
+        if len(seq) >= 2:
+            seqs.append(seq)
+    return seqs
+
+
+def lockstep_case(seq):
+    return {'exchanges': [[s.hex() for s in cut(m['bytes'], cuts)] for m, cuts in seq],
+            'methods': ['HEAD' if m['params']['head'] else 'GET' for m, _ in seq],
+            'req_version': 'HTTP/1.1', 'keep_alive': True, 'ignore_length': False, 'tables': True, 'write_requests': True,
+            'eof_after': [False] * (len(seq) - 1) + [True]}
 
 
 def correspondence(ctx):
     r = common.rng('c08')
-    n_msgs = 600 if not ctx.thorough else 30000
+    n_msgs = 600 if not ctx.thorough else 8000
     msgs, pairs = build(ctx, r, n_msgs, 4, 1)
     ints = int_samples(r, 300)
     results, first = run_impl([impl_case(msgs[mi], cuts) for mi, cuts in pairs], extra={'latin1': True, 'ints': ints})
@@ -746,11 +787,48 @@ def correspondence(ctx):
         disagreements.append({'note': 'python primitive tables: coq error', 'coq_error': out[-500:]})
     elif fails:
         disagreements.append({'note': 'python primitive model differs from the interpreter', 'items': [lat_items[int(i)][:200] for i in fails[:5]]})
+    # lockstep sequences on a persistent connection
+    rl = common.rng('c08-lockstep')
+    seqs = build_lockstep(rl, 70 if not ctx.thorough else 3000)
+    lres, _ = run_impl([lockstep_case(q) for q in seqs])
+    litems, lindex = [], []
+    lock_violations = []
+    n_lock = 0
+    for qi, (seq, res) in enumerate(zip(seqs, lres)):
+        exl = res['exchanges']
+        for k, ex in enumerate(exl):
+            m, cuts = seq[k]
+            n_lock += 1
+            if ex['starved']:
+                lock_violations.append({'why': 'lockstep-reader-wanted-more-than-the-message', 'exchange': k, 'cuts': cuts,
+                                        'case': {'bytes': m['bytes'].hex(), 'params': m['params'], 'tags': m['tags'] + ['lockstep'], 'wf': True,
+                                                 'expect': m['expect'], 'truncated': False}})
+                break
+            vs = property_violations(m, [(cuts, ex)])
+            for v in vs:
+                v['why'] = 'lockstep-' + v['why']
+                v['exchange'] = k
+            lock_violations += vs
+            xt = coq_expected(m, ex)
+            if xt is not None:
+                litems.append((coq_run(m, ex), xt))
+                lindex.append((qi, k))
+        # every exchange must have run unless wpull closed the connection (Connection: close)
+        if len(exl) < len(seq) and not (exl and (exl[-1]['closed'] or exl[-1]['error'])):
+            lock_violations.append({'why': 'lockstep-sequence-stopped', 'exchange': len(exl), 'cuts': [],
+                                    'case': {'bytes': seq[0][0]['bytes'].hex(), 'params': seq[0][0]['params'], 'tags': ['lockstep'], 'wf': True,
+                                             'expect': seq[0][0]['expect'], 'truncated': False}})
+    lfail, lerr = model_check(litems)
+    disagreements += lerr
+    for f in lfail[:5]:
+        qi, k = lindex[f]
+        disagreements.append({'note': 'model result differs (lockstep sequence %d exchange %d)' % (qi, k), 'bytes': seqs[qi][k][0]['bytes'].hex(),
+                              'cuts': seqs[qi][k][1], 'model': model_eval(litems[f][0])})
     # property on the implementation
     by_msg = {}
     for (mi, cuts), ex in zip(pairs, exs):
         by_msg.setdefault(mi, []).append((cuts, ex))
-    violations = []
+    violations = list(lock_violations)
     for mi, runs in by_msg.items():
         violations += property_violations(msgs[mi], runs)
     # statistics
@@ -764,9 +842,11 @@ def correspondence(ctx):
         if cuts and (ex['error'] or ex['payload_len'] > 0 or ex['status'] in (204, 304)) and ex.get('status') is not None:
             nontriv.add((m['bytes'], tuple(cuts)))
     dist['wf'] = sum(1 for mi, _ in pairs if msgs[mi]['wf'])
+    dist['lockstep-exchanges'] = n_lock
+    dist['lockstep-sequences'] = len(seqs)
     ctx.c08 = (msgs, pairs, exs)
     return {
-        'evaluations': len(pairs),
+        'evaluations': len(pairs) + n_lock,
         'distinct_nontrivial': len(nontriv),
         'rule': 'generated (response stream, segmentation) pairs: status lines, header spellings (case, spacing, obs-fold, LF-only, duplicates, '
                 'latin-1 / control bytes), Content-Length and chunked variants (extensions, trailers, odd sizes), read-until-close, no-body statuses, '
@@ -782,7 +862,7 @@ def correspondence(ctx):
 
 def search(ctx, disagreements):
     r = common.rng('c08-search')
-    msgs, pairs = build(ctx, r, 6000, 5, 2)
+    msgs, pairs = build(ctx, r, 2500, 5, 2)
     results, _ = run_impl([impl_case(msgs[mi], cuts) for mi, cuts in pairs])
     by_msg = {}
     for (mi, cuts), res in zip(pairs, results):
